@@ -1,7 +1,7 @@
 package handshake
 
 //symgo:pkg github.com/pion/dtls/v3/pkg/protocol/handshake
-//symgo:param NCRQ quick=2 thorough=4
+//symgo:param NCRQ quick=2 thorough=3
 //symgo:param NCRQA quick=5 thorough=8
 //symgo:param NCRQV quick=1 thorough=2
 //symgo:param NCRQODD quick=1 thorough=2
